@@ -38,11 +38,16 @@ def judge_pair(x, prev, cur, engine, maximize, where, size=None):
     if engine not in ELITIST or not len(fp):
         return
     sgn = -1.0 if maximize else 1.0
-    bp, bc = (sgn * fp).min(), (sgn * fc).min()
+    # NaN (undefined objective) ranks worst: replace by +inf in the minimisation view
+    vp = np.where(np.isnan(fp), np.inf, sgn * fp)
+    vc = np.where(np.isnan(fc), np.inf, sgn * fc)
+    if np.isnan(fp).any() or np.isnan(fc).any():
+        x.flag("generation with NaN fitness values")
+    bp, bc = vp.min(), vc.min()
     if bc > bp:
         x.violate(f"C12/best-got-worse:{engine}", f"{where}: best fitness went from {sgn * bp} to {sgn * bc}", engine=engine)
     if engine in ONE_TO_ONE:
-        sp, sc = np.sort(sgn * fp), np.sort(sgn * fc)
+        sp, sc = np.sort(vp), np.sort(vc)
         if np.any(sc > sp):
             k = int(np.argmax(sc > sp))
             x.violate(f"C12/kth-best-got-worse:{engine}", f"{where}: the {k + 1}-th best fitness went from {sgn * sp[k]} to {sgn * sc[k]}")
@@ -96,6 +101,11 @@ def units(tier, seed):
                 k += 1
                 descs.append(dict(engines=list(eng), gens=gens, obj=objs[k % 5], maximize=mx, Mh=3, seed=s, kelites=1 + k % 2, pmut=(1.0, 0.5)[(k // 2) % 2], observing_gsc=bool((k // 3) % 2),
                                   sprout={"kind": ("simple", "nbc")[(k // 4) % 2], "L": 2}, hib=bool(k % 5 == 0)))
+    # objective undefined (NaN) on part of the box: NaN ranks worst, the best *number* must not be lost
+    for eng in [e for e in shapes if not any(v.startswith("CMA") or v == "LOC" for v in e)][::2]:
+        for mx in (False, True):
+            k += 1
+            descs.append(dict(engines=list(eng), gens=3, obj=("nanhole", "nanhalf")[k % 2], maximize=mx, Mh=3, seed=s + k % 3, kelites=1 + k % 2, sprout={"kind": "simple", "L": 2}))
     us = [{"kind": "run", "descs": c} for c in chunks(descs, 30)]
     ops = []
     for op in ENGINE_OPS:
